@@ -276,10 +276,6 @@ func (p *Properties) Pack(bufw *bytes.Buffer, packetType byte) {
 
 func (p *Properties) UnpackWillProperties(bufr *bytes.Buffer) error {
 	var err error
-	if bufr.Len() == 0 {
-		// the property length is omitted: no properties
-		return nil
-	}
 	length, err := EncodeRemainLength(bufr)
 	// 整个buffer最多只能读到length这么长
 	if err != nil {
@@ -339,8 +335,12 @@ func (p *Properties) UnpackWillProperties(bufr *bytes.Buffer) error {
 func (p *Properties) Unpack(bufr *bytes.Buffer, packetType byte) error {
 	var err error
 	if bufr.Len() == 0 {
-		// the property length is omitted: no properties
-		return nil
+		switch packetType {
+		case PUBACK, PUBREC, PUBREL, PUBCOMP, DISCONNECT:
+			// the property length can be omitted when the packet ends after the reason code
+			return nil
+		}
+		return codes.ErrMalformed
 	}
 	length, err := EncodeRemainLength(bufr)
 	// 整个buffer最多只能读到length这么长
